@@ -11,7 +11,6 @@ import (
 
 	"github.com/juev/hledger-lsp/internal/analyzer"
 	"github.com/juev/hledger-lsp/internal/ast"
-	"github.com/juev/hledger-lsp/internal/lsputil"
 	"github.com/juev/hledger-lsp/internal/parser"
 )
 
@@ -47,8 +46,9 @@ func (s *Server) Hover(ctx context.Context, params *protocol.HoverParams) (*prot
 	}
 
 	journal, _ := parser.Parse(doc)
+	mapper := newColumnMapper(doc)
 
-	element := findElementAtPosition(journal, params.Position)
+	element := findElementAtPosition(journal, mapper.runePosition(params.Position))
 	if element == nil || element.context == HoverUnknown {
 		return nil, nil
 	}
@@ -74,10 +74,12 @@ func (s *Server) Hover(ctx context.Context, params *protocol.HoverParams) (*prot
 			Kind:  protocol.Markdown,
 			Value: content,
 		},
-		Range: astRangeToProtocol(element.rng),
+		Range: mapper.toProtocol(element.rng),
 	}, nil
 }
 
+// positionInRange compares a cursor with a range of the syntax tree: the character of pos
+// counts runes like the columns of the tree do (see columnMapper.runePosition).
 func positionInRange(pos protocol.Position, rng ast.Range) bool {
 	line := int(pos.Line) + 1
 	col := int(pos.Character) + 1
@@ -182,7 +184,7 @@ func estimatePayeeRange(tx *ast.Transaction, payee string) ast.Range {
 		startCol += 2
 	}
 
-	payeeLen := lsputil.UTF16Len(payee)
+	payeeLen := utf8.RuneCountInString(payee)
 	return ast.Range{
 		Start: ast.Position{
 			Line:   tx.Date.Range.Start.Line,
@@ -302,19 +304,6 @@ func countPostingsForAccountInTransactions(accountName string, transactions []as
 	return count
 }
 
-func astRangeToProtocol(rng ast.Range) *protocol.Range {
-	return &protocol.Range{
-		Start: protocol.Position{
-			Line:      uint32(rng.Start.Line - 1),
-			Character: uint32(rng.Start.Column - 1),
-		},
-		End: protocol.Position{
-			Line:      uint32(rng.End.Line - 1),
-			Character: uint32(rng.End.Column - 1),
-		},
-	}
-}
-
 func findTagAtPosition(tags []ast.Tag, pos protocol.Position) *hoverElement {
 	for _, tag := range tags {
 		if !positionInRange(pos, tag.Range) {
@@ -324,7 +313,7 @@ func findTagAtPosition(tags []ast.Tag, pos protocol.Position) *hoverElement {
 		// Determine if cursor is on tag name or tag value
 		// Tag format: name:value
 		// tag.Range.Start is at the beginning of name
-		colonCol := tag.Range.Start.Column + lsputil.UTF16Len(tag.Name)
+		colonCol := tag.Range.Start.Column + utf8.RuneCountInString(tag.Name)
 		cursorCol := int(pos.Character) + 1 // convert to 1-based
 
 		if cursorCol <= colonCol {
